@@ -2,6 +2,7 @@ package middleware
 
 import (
 	"context"
+	"net"
 	"time"
 
 	"github.com/miekg/dns"
@@ -21,6 +22,17 @@ import (
 // failover, resolver, forwarder, etc).
 type ClientOnly interface {
 	ClientOnly() bool
+}
+
+// SourceAdmitter is implemented by a Handler whose verdict is "this source
+// address is not served at all" and depends on nothing but the address —
+// the access list. The chain enforces it for everything that reaches the
+// chain; the server asks the same question through Pipeline.AdmitsSource
+// before any reply it builds itself ahead of the chain (the bare-header
+// NOTIMP/FORMERR rejections, the QDCOUNT guard), so a source the operator
+// excluded hears nothing from those either.
+type SourceAdmitter interface {
+	AdmitsSource(ip net.IP) bool
 }
 
 // InlineBarrier marks the Handler that makes a pipeline safe to run on a
